@@ -536,7 +536,19 @@ func (x *Exec) builtin(st *State, fr *Frame, b *ssa.Builtin, call *ssa.CallCommo
 	case "append":
 		// a contract may guard what is appended: sink "append" requires ... (sinkarg(0) the list,
 		// sinkarg(1) the appended slice)
+		// an append whose appended slice is read from a field F is also the sink "append(.F)"
 		x.sinkGuards(st, "append", args)
+		if len(call.Args) == 2 {
+			if u, ok := call.Args[1].(*ssa.UnOp); ok && u.Op == token.MUL {
+				if fa, ok := u.X.(*ssa.FieldAddr); ok {
+					if pt, ok := fa.X.Type().Underlying().(*types.Pointer); ok {
+						if stt, ok := pt.Elem().Underlying().(*types.Struct); ok {
+							x.sinkGuards(st, "append(."+stt.Field(fa.Field).Name()+")", args)
+						}
+					}
+				}
+			}
+		}
 		return x.doAppend(st, args[0], args[1], call.Args[0].Type(), call.Args[1].Type(), pos)
 	case "copy":
 		return x.doCopy(st, args[0], args[1], call.Args[0].Type(), call.Args[1].Type(), pos)
